@@ -108,7 +108,30 @@ CLAIMED.update({
         "schedules of invocation indices (single, 2-4 consecutive, scattered; every index in the thorough tier), deterministic and noisy modes; the run must complete, attempt shapes vs the model, and the C01/C03/C04 run-level checks are "
         "re-run on every faulted run.",
    design="5 / C16", technique="Lean 4 theorems over the retry model + fault-schedule enumeration on real runs"),
+ "C18": dict(
+   text="Theorems (Props/C18.lean): es_returns_argmin (the proposed point is a surviving candidate of some generation with minimal acquisition value, for every population size), es_empty, mask_monotone, mask_le_index "
+        "(first offspring from the best parent, unit steps, mask[k] <= k - for arbitrary final weights), hedge_sum_one, hedge_ge_floor, choose_defined / hedge_draw_defined, search_step_at_most_one_call. Correspondence: the real "
+        "selection mask vs Srch.selectionMask for every (mu, lambda) up to 300 (thorough) and (2048, 2048); every ES call of traced runs (all survivors of all generations vs the proposed point); hedge probabilities of every search step. "
+        "Mask validity (length, indices < mu) is exhaustively tested up to the bound, not proved.",
+   design="5 / C18", technique="Lean 4 theorems over the accumulate/select, mask and hedge models + exhaustive mask sweep and trace differential"),
+ "C20": dict(
+   text="Theorems (Props/C20.lean) for every pair of option files, evaluation oracle, dimension and override set: user_wins, default_otherwise (the default expression evaluated for the instance's own D), env_has_user_values "
+        "(dependent defaults see the user's values), unknown_rejected, loadFile_protected; shipped_files_wellformed re-proved from the regenerated name lists. Correspondence: every option name of both ini files overridden at least once "
+        "(random subsets, D in 1..6): BADS.options vs Opt.load's provenance terms, defaults evaluated independently from the ini text; unknown names; multi-instance construct/run orders; caller's dict and arrays before/after. "
+        "Aliasing and the process-global D cell are heap/runtime behaviour: covered by the differential, not by a theorem.",
+   design="5 / C20", technique="Lean 4 theorems over the option-loading model + per-name override differential and multi-instance orders"),
+ "C07": dict(
+   text="PARTIAL. Theorems (Props/C07.lean) for an arbitrary generator, arbitrary programs and arbitrary foreign activity: run_independent_of_history, x0_draw_depends_only_on_seed, optimize_depends_only_on_seed, and three counterexample "
+        "theorems showing that both seeding points (construction and optimize) and the seed itself are needed. Correspondence: history pairs on the real code (fresh process vs foreign history before construction and between construction "
+        "and run), every evaluated point and the result compared bit for bit; the seeding discipline the model assumes (first generator use in __init__ and optimize() is seed(s)) is observed. Entropy outside NumPy's global generator "
+        "is not in the model; those pairs are testing.",
+   design="5 / C07", technique="Lean 4 theorem over an abstract generator/process-history model + bitwise history-pair differential (partial)"),
 })
+CLAIMED["C09"]["text"] = ("PARTIAL. Definedness theorems (Props/C09.lean) for the rare internal paths the property names, in the definedness model Defined.lean and the models of C10/C16/C18: es_loop_defined, es_empty_proposes_nothing, "
+    "record_value_kind, gp_stats_defined, history_record_defined, train_opts_defined, target_fallback_defined, result_defined, hedge_choice_defined, sample_prior_defined, refit_retries_defined, valid_call_accepted. "
+    "Execution: trace pool + generators forcing those paths (all ES candidates infeasible, repeats under specified noise, NaN GP prediction at the incumbent, budgets at the edge of the initial design, degenerate targets); any exception "
+    "escaping optimize() on a valid problem is a failing input; the model's ok/error verdict is compared with the code at every observed instance of a modelled mechanism. No model proves absence of internal errors in all of pybads' NumPy "
+    "code: the unmodelled part is covered only as far as runs are executed.")
 
 NA = {
  "C06": "population-level statistical guarantee about floating-point GP regression and random ES sampling; no executable Lean model expresses it (DESIGN.md section 6); its per-run clause is proved and checked under C04",
